@@ -340,3 +340,6 @@ func (w *World) SkipNext(i, owner, n int) {
 }
 
 func opID(op *model.Operation) string { return fmt.Sprintf("%s:%d", op.ID.CUID, op.ID.Seq) }
+
+// NoteEmitted records operations emitted outside World.Call (calls made through child handles).
+func (r *Replica) NoteEmitted() int { return len(r.noteEmitted()) }
